@@ -260,6 +260,52 @@ static void op_idx(Cur &c, Out &o)
             for (size_t j = 0; j < R; j++)
                 tpos2.push_back((size_t)tt(i, j));
     }
+    // value semantics: copies (constructed, assigned into an object of another shape, moved) are the same tensor
+    bool copies = true;
+    {
+        auto same = [&](const auto &x, const auto &y) {
+            return x.dims() == y.dims() && x.get_data() == y.get_data() && x.size() == y.size();
+        };
+        tensor::Tensor<double> c1(t), c2(1, 1, 1), tmp(t), c4(2, 1, 1), tmp2(t);
+        c2 = t;
+        tensor::Tensor<double> c3(std::move(tmp));
+        c4 = std::move(tmp2);
+        copies = copies && same(c1, t) && same(c2, t) && same(c3, t) && same(c4, t);
+        for (size_t i = 0; i < R && copies; i++)
+            for (size_t j = 0; j < C; j++)
+                for (size_t a = 0; a < T; a++)
+                    copies = copies && c2(i, j, a) == t(i, j, a) && c4(i, j, a) == t(i, j, a);
+        std::vector<double> d(R * C);
+        for (size_t p = 0; p < d.size(); p++)
+            d[p] = (double)p;
+        Matrix<double> m(R, C, d), m1(m), m2(1, 1), mt(m);
+        m2 = m;
+        Matrix<double> m3(std::move(mt));
+        copies = copies && same(m1, m) && same(m2, m) && same(m3, m);
+        for (size_t i = 0; i < R && copies; i++)
+            for (size_t j = 0; j < C; j++)
+                copies = copies && m2(i, j) == m(i, j) && m3(i, j) == m(i, j);
+        std::vector<double> dd(R * T);
+        for (size_t p = 0; p < dd.size(); p++)
+            dd[p] = (double)p;
+        DiagonalTensor<double> g(R, T, dd), g1(g), g2(1, 1);
+        g2 = g;
+        copies = copies && same(g1, g) && same(g2, g);
+        for (size_t i = 0; i < R && copies; i++)
+            for (size_t a = 0; a < T; a++)
+                copies = copies && g2(i, a) == g(i, a);
+        std::vector<double> ds(R * R * T);
+        for (size_t p = 0; p < ds.size(); p++)
+            ds[p] = (double)p;
+        SymmetricTensor<double> sy(R, T, ds), sy1(sy), sy2(1, 1);
+        sy2 = sy;
+        copies = copies && same(sy1, sy) && same(sy2, sy);
+        for (size_t i = 0; i < R && copies; i++)
+            for (size_t j = 0; j < R; j++)
+                for (size_t a = 0; a < T; a++)
+                    copies = copies && sy2(i, j, a) == sy(i, j, a) && (size_t)sy(i, j, a) == a * R * R + j * R + i;
+    }
+    o.kv("copies", copies ? "1" : "0");
     o.list("pos", pos);
     o.list("tpos", tpos);
     o.list("mpos", mpos);
